@@ -25,6 +25,7 @@ import (
 	"fmt"
 	"os"
 
+	"github.com/piotrnar/gocoin/client/common"
 	"github.com/piotrnar/gocoin/lib/btc"
 	"github.com/piotrnar/gocoin/lib/chain"
 	"verif/chainkit"
@@ -40,6 +41,7 @@ type syncState struct {
 	behindLeft int             // blocks still to be connected with the target below as best known header
 	target     uint32
 	tieSaid    bool
+	forceLK    *uint32 // scenario syncwrap: the LastKnownHeight of the next block
 }
 
 func (w *world) unwindLen() uint32 { return w.k.Ch.Unspent.UnwindBufLen }
@@ -48,6 +50,9 @@ func (w *world) unwindLen() uint32 { return w.k.Ch.Unspent.UnwindBufLen }
 func (w *world) lastKnownFor(h uint32, onTip bool) uint32 {
 	g := w.sy.srng
 	U := w.unwindLen()
+	if w.sy.forceLK != nil {
+		return *w.sy.forceLK
+	}
 	if onTip && w.sy.behindLeft > 0 {
 		w.sy.behindLeft--
 		r.Hit("sync:lastknown=target")
@@ -133,6 +138,34 @@ func (w *world) fallBehind(n int, ahead int) {
 	w.logf("falls behind: best known header %d for the next %d blocks (tip %d)", w.sy.target, n, tip)
 }
 
+// farGap: HOW FAR beyond the UnwindBufLen boundary the best known header of a stretch lies. The distance is only a number
+// on the block; a threshold anywhere in lib/chain / lib/utxo / client/wallet that compares it (a day, a retarget period,
+// "initial block download", half / all of the uint32 range) must be crossed by some stretch. Drawn from the stream of the
+// sync state (w.sy.srng), so the histories of the other streams stay what they were.
+func (w *world) farGap(n int) (gap uint32, kind string) {
+	g := w.sy.srng
+	tip := w.k.Ch.LastBlock().Height
+	room := ^uint32(0) - tip - w.unwindLen() - 1 // target = tip + U + gap + 1 must not wrap
+	switch g.Intn(10) {
+	case 0, 1, 2:
+		return uint32(1 + g.Intn(n+1)), "1..n+1(stretch-runs-through-the-boundary)"
+	case 3:
+		return uint32(6 + g.Intn(139)), "6..144"
+	case 4:
+		return 144 + uint32(g.Intn(3)), "144..146"
+	case 5:
+		return 1000 + uint32(g.Intn(1100)), "1000..2099(retarget-period)"
+	case 6:
+		return w.unwindLen() - 1 + uint32(g.Intn(3)), "another-UnwindBufLen"
+	case 7:
+		return 100000 + uint32(g.Intn(900000)), "1e5..1e6"
+	case 8:
+		return 1<<31 - tip - w.unwindLen() - 3 + uint32(g.Intn(5)), "target-around-2^31"
+	default:
+		return room - uint32(g.Intn(3)), "target-at-max-uint32"
+	}
+}
+
 // one block of the stretch: spends of indexed outputs and / or payments to pool addresses (or random transactions)
 func (w *world) syncBlock(scripted bool) {
 	tip := w.k.Ch.LastBlock()
@@ -194,9 +227,11 @@ func (w *world) opSync(scripted bool) {
 		return
 	}
 	n := 1 + w.rng.Intn(4)
-	ahead := 1 + w.rng.Intn(n+1)
-	w.fallBehind(n, ahead)
+	w.rng.Intn(n + 1) // (draw kept: the histories of earlier versions of this stream are unchanged)
+	gap, kind := w.farGap(n)
+	w.fallBehind(n, int(gap))
 	r.Hit("sync:stretch:" + onoff(w.on))
+	r.Hit("sync:stretch:gap-beyond-boundary=" + kind)
 	for i := 0; i < n && !w.failed; i++ {
 		w.syncBlock(scripted)
 		if w.rng.Chance(1, 6) && !w.failed {
@@ -214,6 +249,84 @@ func (w *world) opSync(scripted bool) {
 	}
 	w.sy.behindLeft = 0
 	w.checkView()
+}
+
+// opNoise: node state that must NOT matter to the index changes while the index is on (or off): the WebUI / TextUI post a
+// config change (CFG.AllBalances.MinValue / UseMapCnt overwritten + common.Reset(), from a goroutine of its own) — the
+// minimum in force and the wallet's list->map threshold stay what they were until the next build / restart —, or the client's
+// "block chain synchronized" flag flips (common.BlockChainSynchronized: set when the node has caught up, cleared when it
+// falls behind). The model does nothing; the blocks that follow are judged by the property's predicate as always.
+func (w *world) opNoise() {
+	if w.failed {
+		return
+	}
+	if w.rng.Chance(1, 3) {
+		v := !common.BlockChainSynchronized.Load()
+		common.BlockChainSynchronized.Store(v)
+		r.Hit(fmt.Sprintf("noise:BlockChainSynchronized=%v:%s", v, onoff(w.on)))
+		w.logf("common.BlockChainSynchronized = %v", v)
+		return
+	}
+	before := common.AllBalMinVal()
+	mn, um := minChoices[w.rng.Intn(len(minChoices))], mapChoices[w.rng.Intn(len(mapChoices))]
+	if w.rng.Bool() {
+		mn = w.min + uint64(w.rng.Intn(3000)) // just above the minimum in force: outputs in between exist
+	}
+	if pan := cfgChange(mn, um); pan != "" {
+		w.tieFail("reset-panic", "common.Reset() panicked inside the harness: "+pan, nil)
+		return
+	}
+	r.Hit("noise:config-change+Reset:" + onoff(w.on))
+	w.logf("config change while the index is %s: CFG.AllBalances.MinValue=%d UseMapCnt=%d + common.Reset(); min in force %d -> %d", onoff(w.on), mn, um, before, common.AllBalMinVal())
+	if after := common.AllBalMinVal(); after != before && w.on && !softReported["min-in-force"] {
+		softReported["min-in-force"] = true
+		r.TieFail("min-in-force", fmt.Sprintf("a config change + common.Reset() while the index is on changed the minimum in force from %d to %d (the index was built with %d)", before, after, before), w.replayDoc(nil))
+	}
+}
+
+// runSyncWrap: THE uint32 WRAP of chain.commitTxs' test `Height + UnwindBufLen >= LastKnownHeight` on the real code. Heights
+// near 2^32 cannot be built, but UnwindBufLen is an exported field of UnspentDB: with UnwindBufLen = 2^32-1-x the sum wraps to
+// Height-1-x for every block, and the best known header decides around THAT value whether undo data is kept. Blocks are
+// connected with the index on and best known headers 0 / just below / at / just above the wrapped sum / own height / max uint32;
+// the model's keepsUndo (asked with the wrapping operands) is compared with the undo file the real code leaves, the index
+// with the projection after every block. No disconnections (most blocks keep no undo data).
+func runSyncWrap(name string, seed uint64, mn uint64, um uint32, compr bool, stopAt int) *world {
+	w := newWorldOpt(name, seed, mn, um, compr)
+	w.stopAt = stopAt
+	defer w.close()
+	w.scriptedSetup()
+	w.enable(mn, um, false)
+	w.fundPool(mn, 3)
+	x := uint32(w.rng.Intn(40))
+	w.k.Ch.Unspent.UnwindBufLen = ^uint32(0) - x
+	w.logf("UnwindBufLen = %d (Height + UnwindBufLen wraps to Height-%d)", w.k.Ch.Unspent.UnwindBufLen, x+1)
+	for i := 0; i < 10 && !w.failed; i++ {
+		h := w.k.Ch.LastBlock().Height + 1
+		wrapped := h - 1 - x
+		var lk uint32
+		switch i % 7 {
+		case 0:
+			lk = 0
+		case 1:
+			lk = wrapped - 1 - uint32(w.rng.Intn(3))
+		case 2:
+			lk = wrapped
+		case 3:
+			lk = wrapped + 1
+		case 4:
+			lk = h
+		case 5:
+			lk = h + uint32(w.rng.Intn(3000))
+		default:
+			lk = ^uint32(0) - uint32(w.rng.Intn(2))
+		}
+		w.sy.forceLK = &lk
+		r.Hit("sync:wrap:block")
+		w.syncBlock(true)
+	}
+	w.sy.forceLK = nil
+	w.checkView()
+	return w
 }
 
 // runSync: funded pool; the index is built, or built and then restored from the balances cache (the client's start-up);
@@ -252,6 +365,7 @@ func runSync(name string, seed uint64, mn uint64, um uint32, compr bool, stopAt 
 				}
 				w.enable(mn, um, w.rng.Bool())
 			default:
+				w.opNoise()
 				w.syncBlock(true) // a block in a random (kept-undo) sync state
 			}
 		}
